@@ -1344,9 +1344,14 @@ type e2e struct {
 	hd      *e2eHandler
 	addr    string
 	nMedias int
+	bc      []int
 }
 
-func startE2E(h *harness, nMedias int) (*e2e, error) {
+func startE2E(h *harness, nMedias int) (*e2e, error) { return startE2EBC(h, nMedias, nil) }
+
+// startE2EBC: like startE2E; the medias listed in bc are ONVIF back channels (the DESCRIBE answer omits them
+// unless the client asks for them, so the numbering of the described medias and of the stream's medias differ)
+func startE2EBC(h *harness, nMedias int, bc []int) (*e2e, error) {
 	hd := &e2eHandler{}
 	var addr string
 	srv := &gortsplib.Server{
@@ -1363,7 +1368,12 @@ func startE2E(h *harness, nMedias int) (*e2e, error) {
 	if err := srv.Start(); err != nil {
 		return nil, err
 	}
-	st := &gortsplib.ServerStream{Server: srv, Desc: &description.Session{Medias: newMedias(nMedias)}}
+	ms := newMedias(nMedias)
+	for _, k := range bc {
+		ms[k].Type = description.MediaTypeAudio
+		ms[k].IsBackChannel = true
+	}
+	st := &gortsplib.ServerStream{Server: srv, Desc: &description.Session{Medias: ms}}
 	if err := st.Initialize(); err != nil {
 		srv.Close()
 		return nil, err
@@ -1389,11 +1399,17 @@ func requestLines(b []byte) []string {
 
 // play: describe, set up the medias in the given order, play. Returns the server log and the wire.
 func (e *e2e) play(u *base.URL, order []int) (log []logEntry, wire []byte, err error) {
+	log, wire, _, err = e.playBC(u, order, false)
+	return
+}
+
+// playBC: order indexes the DESCRIBED medias; meant = the stream medias they are (identified by payload type)
+func (e *e2e) playBC(u *base.URL, order []int, reqBC bool) (log []logEntry, wire []byte, meant []int, err error) {
 	var mu sync.Mutex
 	var buf bytes.Buffer
 	proto := gortsplib.ProtocolTCP
 	c := &gortsplib.Client{
-		Scheme: u.Scheme, Host: u.Host, Protocol: &proto,
+		Scheme: u.Scheme, Host: u.Host, Protocol: &proto, RequestBackChannels: reqBC,
 		ReadTimeout: 2 * time.Second, WriteTimeout: 2 * time.Second,
 		DialContext: func(ctx context.Context, network, _ string) (net.Conn, error) {
 			nc, err := (&net.Dialer{}).DialContext(ctx, network, e.addr)
@@ -1405,7 +1421,7 @@ func (e *e2e) play(u *base.URL, order []int) (log []logEntry, wire []byte, err e
 	}
 	e.hd.take()
 	if err = c.Start(); err != nil {
-		return nil, nil, err
+		return nil, nil, nil, err
 	}
 	defer func() {
 		c.Close()
@@ -1416,20 +1432,81 @@ func (e *e2e) play(u *base.URL, order []int) (log []logEntry, wire []byte, err e
 	}()
 	desc, _, err := c.Describe(u)
 	if err != nil {
-		return nil, nil, fmt.Errorf("DESCRIBE: %w", err)
+		return nil, nil, nil, fmt.Errorf("DESCRIBE: %w", err)
 	}
 	for _, i := range order {
 		if i >= len(desc.Medias) {
-			return nil, nil, fmt.Errorf("described %d medias", len(desc.Medias))
+			if reqBC || len(e.bc) == 0 {
+				return nil, nil, nil, fmt.Errorf("described %d medias", len(desc.Medias))
+			}
+			continue // fewer medias described than the stream has: the back channels are omitted
 		}
+		// which media of the stream this is: newMedias gives media k the payload type 96+k
+		meant = append(meant, int(desc.Medias[i].Formats[0].PayloadType())-96)
 		if _, err = c.Setup(desc.BaseURL, desc.Medias[i], 0, 0); err != nil {
-			return nil, nil, fmt.Errorf("SETUP media %d: %w", i, err)
+			return nil, nil, meant, fmt.Errorf("SETUP media %d: %w", i, err)
 		}
 	}
 	if _, err = c.Play(nil); err != nil {
-		return nil, nil, fmt.Errorf("PLAY: %w", err)
+		return nil, nil, meant, fmt.Errorf("PLAY: %w", err)
 	}
-	return nil, nil, nil
+	return nil, nil, meant, nil
+}
+
+// backChannelCases: streams with ONVIF back channels in every position; a client that does not ask for back
+// channels is given a description without them, and every SETUP it issues must still reach the media it names
+// (C20: "every SETUP reaches the media the client meant"), in every set-up order.
+func (h *harness) backChannelCases(g *gen) {
+	for _, bc := range [][]int{{1}, {0}, {2}, {0, 1}, {0, 2}, {1, 3}} {
+		n := 3
+		if bc[len(bc)-1] >= n {
+			n = bc[len(bc)-1] + 2
+		}
+		e, err := startE2EBC(h, n, bc)
+		if err != nil {
+			h.ctx.Failf(-1, "e2e-server-start", "", "cannot start the loopback server: %v", err)
+			return
+		}
+		e.bc = bc
+		for _, reqBC := range []bool{false, true} {
+			for _, tail := range []string{"/cam/main?profile=a/b&x=1", "/s"} {
+				u, err := base.ParseURL("rtsp://" + e.addr + tail)
+				if err != nil {
+					continue
+				}
+				order := g.perm(n)
+				input := fmt.Sprintf("e2e-backchannel %q medias=%d backchannels=%v request-backchannels=%v order=%v", u, n, bc, reqBC, order)
+				h.ctx.Eval()
+				h.ctx.Kind("flow-play-e2e-backchannel")
+				h.ctx.Nontrivial(fmt.Sprintf("e2e-bc:%v:%v:%s", bc, reqBC, tail))
+				log, _, meant, err := e.playBC(u, order, reqBC)
+				if err != nil {
+					h.ctx.Failf(-1, "play-flow-broken-backchannel", input, "e2e: play flow failed: %v (server saw %v)", err, log)
+					continue
+				}
+				want := n
+				if !reqBC {
+					want = n - len(bc)
+				}
+				if len(meant) != want {
+					h.ctx.Failf(-1, "describe-backchannel-filter", input, "e2e: %d medias described and set up, expected %d", len(meant), want)
+				}
+				var reached []int
+				for _, l := range log {
+					if l.method == "PLAY" {
+						reached = l.medias
+					}
+					if l.path != u.Path || l.query != u.RawQuery {
+						h.ctx.Failf(-1, "play-path-query-changed", input, "e2e: %s observed path=%q query=%q", l.method, l.path, l.query)
+					}
+				}
+				if fmt.Sprint(reached) != fmt.Sprint(meant) {
+					h.ctx.Failf(-1, "play-setup-wrong-media", input, "e2e: SETUPs issued for stream medias %v reached %v", meant, reached)
+				}
+			}
+		}
+		e.close()
+	}
 }
 
 // record: announce n medias, set them up in the given order, record.
@@ -1645,6 +1722,7 @@ func main() {
 	g := &gen{r: ctx.Rng}
 	h.corpus()
 	h.endToEnd(g, true, 0)
+	h.backChannelCases(g)
 	h.unitCases(g, ctx.Budget(22000, 600000))
 	if ctx.Thorough {
 		h.exhaustive()
